@@ -9,6 +9,7 @@ READER = {"ReadPacket", "fixedHeader.ReadFrom", "fixedHeader.ReadRemaining", "vb
 ENC_METHODS = {"fill", "fillProp", "fillOpt", "properties", "variableHeader", "payload", "WriteTo"}
 DEC_METHODS = {"UnmarshalBinary", "propertyMap", "willPropertyMap"}
 RENDER_FUNCS = {"Dump", "stars", "withForm", "withReason"}
+WIRE_TYPES = {"Ident", "UserProp", "bindata", "bits", "rawdata", "vbint", "wbool", "wuint16", "wuint32"}
 
 
 def group_of(key):
@@ -27,6 +28,8 @@ def group_of(key):
     if name == "width":
         return {"skel"} if recv in PACKET_TYPES else {"wire_enc", "wire_dec"}
     if name in ENC_METHODS:
+        if recv in WIRE_TYPES and name in ("fill", "fillProp", "fillOpt"):
+            return {"wiregen"}  # regenerated statement by statement (gen/GenWire.v, SyncWire.v)
         return {"skel"} if recv in PACKET_TYPES else {"wire_enc"}
     if name in DEC_METHODS:
         return {"skel"} if recv in PACKET_TYPES else {"wire_dec"}
@@ -57,8 +60,8 @@ PROP_GROUPS = {
 }
 
 PROP_SYNC = {
-    "C01": ["gen/GenConsts.v", "gen/SyncEnc.v", "gen/SyncDec.v", "gen/SyncMisc.v", "gen/SyncApi.v", "gen/SyncAcc.v"],
-    "C02": ["gen/GenConsts.v", "gen/SyncEnc.v", "gen/SyncMisc.v", "gen/SyncApi.v", "gen/SyncAcc.v"],
+    "C01": ["gen/GenConsts.v", "gen/SyncEnc.v", "gen/SyncDec.v", "gen/SyncMisc.v", "gen/SyncApi.v", "gen/SyncAcc.v", "gen/SyncWire.v"],
+    "C02": ["gen/GenConsts.v", "gen/SyncEnc.v", "gen/SyncMisc.v", "gen/SyncApi.v", "gen/SyncAcc.v", "gen/SyncWire.v"],
     "C03": ["gen/GenConsts.v", "gen/SyncDec.v", "gen/SyncMisc.v", "gen/SyncAcc.v"],
     "C04": ["gen/SyncDec.v", "gen/SyncMisc.v"],
     "C05": ["gen/SyncDec.v", "gen/SyncMisc.v"],
@@ -66,16 +69,16 @@ PROP_SYNC = {
     "C07": ["gen/SyncDec.v", "gen/SyncMisc.v"],
     "C08": ["gen/SyncDec.v", "gen/SyncMisc.v"],
     "C09": ["gen/GenConsts.v", "gen/SyncDec.v", "gen/SyncMisc.v"],
-    "C10": ["gen/SyncEnc.v", "gen/SyncMisc.v", "gen/SyncString.v"],
-    "C11": ["gen/SyncEnc.v", "gen/SyncMisc.v", "gen/SyncApi.v", "gen/SyncEffects.v"],
-    "C12": ["gen/GenConsts.v", "gen/SyncEnc.v", "gen/SyncApi.v", "gen/SyncAcc.v"],
-    "C13": ["gen/SyncEnc.v", "gen/SyncDec.v", "gen/SyncMisc.v", "gen/SyncEffects.v"],
+    "C10": ["gen/SyncEnc.v", "gen/SyncMisc.v", "gen/SyncString.v", "gen/SyncWire.v"],
+    "C11": ["gen/SyncEnc.v", "gen/SyncMisc.v", "gen/SyncApi.v", "gen/SyncEffects.v", "gen/SyncWire.v"],
+    "C12": ["gen/GenConsts.v", "gen/SyncEnc.v", "gen/SyncApi.v", "gen/SyncAcc.v", "gen/SyncWire.v"],
+    "C13": ["gen/SyncEnc.v", "gen/SyncDec.v", "gen/SyncMisc.v", "gen/SyncEffects.v", "gen/SyncWire.v"],
     "C14": ["gen/SyncDec.v", "gen/SyncMisc.v", "gen/SyncEffects.v"],
-    "C15": [],
-    "C16": ["gen/GenConsts.v", "gen/SyncEnc.v", "gen/SyncDec.v", "gen/SyncMisc.v", "gen/SyncAcc.v"],
+    "C15": ["gen/SyncWire.v"],
+    "C16": ["gen/GenConsts.v", "gen/SyncEnc.v", "gen/SyncDec.v", "gen/SyncMisc.v", "gen/SyncAcc.v", "gen/SyncWire.v"],
     "C17": ["gen/SyncString.v", "gen/SyncAcc.v", "gen/SyncWf.v"],
-    "C18": ["gen/SyncEnc.v", "gen/SyncAcc.v", "gen/SyncDump.v", "gen/SyncString.v"],
-    "C19": ["gen/SyncEnc.v", "gen/SyncDec.v", "gen/SyncAcc.v", "gen/SyncDump.v", "gen/SyncString.v"],
+    "C18": ["gen/SyncEnc.v", "gen/SyncAcc.v", "gen/SyncDump.v", "gen/SyncString.v", "gen/SyncWire.v"],
+    "C19": ["gen/SyncEnc.v", "gen/SyncDec.v", "gen/SyncAcc.v", "gen/SyncDump.v", "gen/SyncString.v", "gen/SyncWire.v"],
 }
 
 
